@@ -123,6 +123,7 @@ class BinningConfig(BaseConfig, Immutable):
         )
 
         if is_custom:
+            the_dict = {k: v for k, v in the_dict.items() if v is not None}
             edges = the_dict.pop("edges")
             closed = the_dict.pop("closed")
             binning = Binning(edges, closed=closed)
